@@ -7,7 +7,7 @@ tag="seed$$"
 dir="/tmp/seedrepo_$tag"
 rm -rf "$dir"; mkdir -p "$dir"
 (cd /repo && git archive HEAD) | tar -x -C "$dir"
-(cd "$dir" && git init -q . && git apply "$patch") || { echo "patch does not apply"; rm -rf "$dir"; exit 2; }
+(cd "$dir" && git init -q . && { git apply "$patch" 2>/dev/null || patch -p1 -F3 -s < "$patch"; }) || { echo "patch does not apply"; rm -rf "$dir"; exit 2; }
 cd "$(dirname "$0")/.."
 for id in "$@"; do
   QIB_REPO="$dir" VERIF_SCRATCH="$tag" ./check "$id" 2>&1 | grep -E "VIOLATION|KNOWN-FINDING|^\[$id\] (ok|FAIL)|BROKEN" | cut -c1-400
